@@ -13,10 +13,14 @@ VARIABLE hist
 
 GInit == Init /\ hist = <<>>
 \* Uniform choice among all enabled events is dominated by faults (every pending call can fail, every link
-\* can be cut) and hardly ever elects anybody.  Three of four steps are therefore taken from the events that
-\* make the protocol progress; the rest from all events.
+\* can be cut) and hardly ever elects anybody.  ProgressPct percent of the steps are therefore taken from the
+\* events that make the protocol progress; the rest from all events.
 Progress == {e \in Events : e.op \in {"tick", "reply", "reconnect"} \/ (e.op = "deliver" /\ \E c \in CallsOf(e) : c.st # "handled")}
-Choice == IF RandomElement(1..100) <= ProgressPct /\ (\E e \in Progress : ENABLED Step(e)) THEN Progress ELSE Events
+\* (election timeouts cost real time in the replay: they are taken from the last 3 percent only)
+Choice == LET r == RandomElement(1..100) IN
+          IF r <= ProgressPct /\ (\E e \in Progress : ENABLED Step(e)) THEN Progress
+          ELSE IF r <= 97 /\ (\E e \in Events : e.op # "timeout" /\ ENABLED Step(e)) THEN {e \in Events : e.op # "timeout"}
+          ELSE Events
 
 GNext == \E e \in Choice :
             /\ Step(e)
